@@ -833,6 +833,13 @@ impl<T> VxVec<T> for Vec<T> {
     #[verifier::external_body] fn vx_remove(&mut self, i: usize) -> (r: T) { self.remove(i) }
 }
 /// `char::to_digit(10)`
+/// `Option<String>::as_deref()` (std: `Some(s) => Some(&*s)`, `None => None`)
+pub trait VxOptDeref { fn vx_as_deref<'a>(&'a self) -> (r: Option<&'a str>); }
+impl VxOptDeref for Option<String> {
+    #[verifier::external_body] fn vx_as_deref<'a>(&'a self) -> (r: Option<&'a str>)
+        ensures r.is_some() == self.is_some(), self.is_some() ==> r.unwrap()@ == self.unwrap()@
+    { self.as_deref() }
+}
 pub trait VxChar { fn vx_to_digit10(self) -> (r: Option<u32>); }
 impl VxChar for char {
     #[verifier::external_body] fn vx_to_digit10(self) -> (r: Option<u32>)
